@@ -33,27 +33,27 @@ Section Conv.
   Variable c : cfg.
   Variable s : state.
   Hypothesis Hc : wf_cfg c.
-  Hypothesis Hi : Inv s.
+  Hypothesis Hi : Inv c s.
   Local Notation A := (total_assets s).
   Local Notation S := (total_supply s).
   Local Notation P := (P_of c).
 
   Lemma den_pos : 0 < A + 1 /\ 0 < S + P /\ 0 <= A /\ 0 <= S /\ 0 < P.
   Proof.
-    pose proof (Inv_A_nonneg s Hi). pose proof (Inv_S_nonneg s Hi). pose proof (P_pos c Hc). lia.
+    pose proof (Inv_A_nonneg c s Hi). pose proof (Inv_S_nonneg c s Hi). pose proof (P_pos c Hc). lia.
   Qed.
 
   Lemma to_shares_floor a q : MIN128 <= a <= MAX128 -> to_shares c s a Floor = Ok q ->
     0 <= a /\ 0 <= q /\ q * (A + 1) <= a * (S + P) < (q + 1) * (A + 1).
   Proof.
-    intros Ha H. rewrite to_shares_spec in H by exact Ha. destruct den_pos as (H1 & H2 & H3 & H4 & H5).
+    intros Ha H. rewrite (to_shares_spec c s _ _ (Inv_stored c s Hi)) in H by exact Ha. destruct den_pos as (H1 & H2 & H3 & H4 & H5).
     pose proof (spec_conv_floor _ _ _ _ _ H H1). pose proof (spec_conv_nonneg _ _ _ _ _ _ H H1).
     destruct (spec_conv_ok _ _ _ _ _ _ H) as (Hx & _). lia.
   Qed.
   Lemma to_shares_ceil a q : MIN128 <= a <= MAX128 -> to_shares c s a Ceil = Ok q ->
     0 <= a /\ 0 <= q /\ a * (S + P) <= q * (A + 1) /\ (0 < a -> (q - 1) * (A + 1) < a * (S + P)).
   Proof.
-    intros Ha H. rewrite to_shares_spec in H by exact Ha. destruct den_pos as (H1 & H2 & H3 & H4 & H5).
+    intros Ha H. rewrite (to_shares_spec c s _ _ (Inv_stored c s Hi)) in H by exact Ha. destruct den_pos as (H1 & H2 & H3 & H4 & H5).
     pose proof (spec_conv_ceil_ge _ _ _ _ _ H H1). pose proof (spec_conv_nonneg _ _ _ _ _ _ H H1).
     destruct (spec_conv_ok _ _ _ _ _ _ H) as (Hx & _).
     split; [lia|]. split; [lia|]. split; [lia|]. intros Hp.
@@ -62,14 +62,14 @@ Section Conv.
   Lemma to_assets_floor x q : MIN128 <= x <= MAX128 -> to_assets c s x Floor = Ok q ->
     0 <= x /\ 0 <= q /\ q * (S + P) <= x * (A + 1) < (q + 1) * (S + P).
   Proof.
-    intros Hx H. rewrite to_assets_spec in H by exact Hx. destruct den_pos as (H1 & H2 & H3 & H4 & H5).
+    intros Hx H. rewrite (to_assets_spec c s _ _ (Inv_stored c s Hi)) in H by exact Hx. destruct den_pos as (H1 & H2 & H3 & H4 & H5).
     pose proof (spec_conv_floor _ _ _ _ _ H H2). pose proof (spec_conv_nonneg _ _ _ _ _ _ H H2).
     destruct (spec_conv_ok _ _ _ _ _ _ H) as (Hx0 & _). lia.
   Qed.
   Lemma to_assets_ceil x q : MIN128 <= x <= MAX128 -> to_assets c s x Ceil = Ok q ->
     0 <= x /\ 0 <= q /\ x * (A + 1) <= q * (S + P) /\ (0 < x -> (q - 1) * (S + P) < x * (A + 1)).
   Proof.
-    intros Hx H. rewrite to_assets_spec in H by exact Hx. destruct den_pos as (H1 & H2 & H3 & H4 & H5).
+    intros Hx H. rewrite (to_assets_spec c s _ _ (Inv_stored c s Hi)) in H by exact Hx. destruct den_pos as (H1 & H2 & H3 & H4 & H5).
     pose proof (spec_conv_ceil_ge _ _ _ _ _ H H2). pose proof (spec_conv_nonneg _ _ _ _ _ _ H H2).
     destruct (spec_conv_ok _ _ _ _ _ _ H) as (Hx0 & _).
     split; [lia|]. split; [lia|]. split; [lia|]. intros Hp.
@@ -88,13 +88,13 @@ Proof. unfold rate_le_states. lia. Qed.
 Ltac same_totals :=
   unfold total_assets, total_supply; cbn [set_asset set_share set_allow asset share bal supply now]; lia.
 
-Lemma step_res_inv_rate c s cl s' o : wf_cfg c -> Inv s -> wf_call cl = true ->
-  step_res c s cl = Ok (s', o) -> Inv s' /\ rate_le_states c s s'.
+Lemma step_res_inv_rate c s cl s' o : wf_cfg c -> Inv c s -> wf_call cl = true ->
+  step_res c s cl = Ok (s', o) -> Inv c s' /\ rate_le_states c s s'.
 Proof.
   intros Hc Hi Hwf H. destruct (wf_call_parts cl Hwf) as (Hnv & Hr).
   destruct (den_pos c s Hc Hi) as (HA1 & HSP & HA & HS & HP).
   unfold rate_le_states.
-  destruct cl as [a r f op au|x r f op au|a r ow op au|x r ow op au|f t a au|t a|ow sp a l au|f t a au|sp f t a au|ow sp a l au|n|q];
+  destruct cl as [a r f op au|x r f op au|a r ow op au|x r ow op au|f t a au|t a|ow sp a l au|f t a au|sp f t a au|ow sp a l au|n|q|sa|so];
     cbn [step_res call_auths call_amount] in *.
   - (* Deposit *)
     destruct o as [sh evs]. destruct (deposit_ok _ _ _ _ _ _ _ _ _ _ H Hi Hnv) as (Hp & _ & He & _ & _ & _ & HA' & Hi').
@@ -118,8 +118,8 @@ Proof.
     unfold lift_tok in H. bsplit H t1 E. inversion H; subst s' o; clear H.
     apply tok_transfer_ok in E. destruct E as (Hau & Hx & ->).
     assert (Hf : f <> V) by (intros ->; rewrite (no_vault_auth_root au Hnv) in Hau; discriminate).
-    destruct Hi as (Ha & Hs & Hz). split.
-    + split; [|split]; cbn [set_asset asset share]; auto. apply tok_inv_xfer; auto.
+    destruct Hi as (Ha & Hs & Hz & Hst). split.
+    + split; [|split; [|split]]; cbn [set_asset asset share]; auto. apply tok_inv_xfer; auto.
     + unfold total_assets, total_supply. cbn [set_asset asset share bal].
       apply rate_assets_up; [exact HSP|].
       destruct (N.eq_dec t V) as [->|Hne]; [rewrite move_to by exact Hf; lia|].
@@ -127,8 +127,8 @@ Proof.
   - (* AMint *)
     unfold lift_tok in H. bsplit H t1 E. inversion H; subst s' o; clear H.
     apply update_mint in E. destruct E as (Hx & Hsup & ->).
-    destruct Hi as (Ha & Hs & Hz). split.
-    + split; [|split]; cbn [set_asset asset share]; auto. apply tok_inv_mint; auto.
+    destruct Hi as (Ha & Hs & Hz & Hst). split.
+    + split; [|split; [|split]]; cbn [set_asset asset share]; auto. apply tok_inv_mint; auto.
     + unfold total_assets, total_supply. cbn [set_asset asset share bal].
       apply rate_assets_up; [exact HSP|].
       destruct (N.eq_dec t V) as [->|Hne]; [rewrite upd_eq; lia|].
@@ -137,38 +137,43 @@ Proof.
     unfold lift_tok, tok_approve in H. bsplit H t1 E. inversion H; subst s' o; clear H.
     bsplit E u Eg. apply guard_ok in Eg. apply set_allowance_ok in E. destruct E as (_ & _ & _ & ->).
     assert (Hf : ow <> V) by (intros ->; rewrite (no_vault_auth_root au Hnv) in Eg; discriminate).
-    destruct Hi as (Ha & Hs & Hz). split.
-    + split; [|split]; cbn [set_asset asset share set_allow allow]; auto.
+    destruct Hi as (Ha & Hs & Hz & Hst). split.
+    + split; [|split; [|split]]; cbn [set_asset asset share set_allow allow]; auto.
       intros sp0. rewrite upd2_neq by (left; intros Heq; apply Hf; symmetry; exact Heq). apply Hz.
     + same_totals.
   - (* STransfer *)
     unfold lift_tok in H. bsplit H t1 E. inversion H; subst s' o; clear H.
     apply tok_transfer_ok in E. destruct E as (Hau & Hx & ->).
-    destruct Hi as (Ha & Hs & Hz). split.
-    + split; [|split]; cbn [set_share asset share]; auto. apply tok_inv_xfer; auto.
+    destruct Hi as (Ha & Hs & Hz & Hst). split.
+    + split; [|split; [|split]]; cbn [set_share asset share]; auto. apply tok_inv_xfer; auto.
     + same_totals.
   - (* STransferFrom *)
     unfold lift_tok in H. bsplit H t1 E. inversion H; subst s' o; clear H.
     apply tok_transfer_from_ok in E. destruct E as (Hau & Hx & t2 & Esp & ->).
-    destruct Hi as (Ha & Hs & Hz). split.
-    + split; [|split]; cbn [set_share asset share]; auto.
+    destruct Hi as (Ha & Hs & Hz & Hst). split.
+    + split; [|split; [|split]]; cbn [set_share asset share]; auto.
       apply (tok_inv_ext {| bal := move (bal (share s)) f t a; supply := supply (share s); allow := allow (share s) |});
         [reflexivity|reflexivity|]. apply tok_inv_xfer; auto.
     + same_totals.
   - (* SApprove *)
     unfold lift_tok, tok_approve in H. bsplit H t1 E. inversion H; subst s' o; clear H.
     bsplit E u Eg. apply set_allowance_ok in E. destruct E as (_ & _ & _ & ->).
-    destruct Hi as (Ha & Hs & Hz). split.
-    + split; [|split]; cbn [set_share asset share]; auto.
+    destruct Hi as (Ha & Hs & Hz & Hst). split.
+    + split; [|split; [|split]]; cbn [set_share asset share]; auto.
     + same_totals.
   - (* Advance *)
     bsplit H u Eg. inversion H; subst s' o; clear H. split; [exact Hi|]. same_totals.
   - (* Query *)
     bsplit H v Eqq. inversion H; subst s' o; clear H. split; [exact Hi|]. lia.
+  - (* SetAsset: already set *)
+    bsplit H s1 E. unfold vault_set_asset in E. destruct (Inv_stored c s Hi) as [Hva _]. rewrite Hva in E. discriminate.
+  - (* SetOffset: already set *)
+    bsplit H s1 E. unfold vault_set_decimals_offset in E. bsplit E u Eg.
+    destruct (Inv_stored c s Hi) as [_ Hvo]. rewrite Hvo in E. discriminate.
 Qed.
 
-Lemma step_inv_rate c s cl : wf_cfg c -> Inv s -> wf_call cl = true ->
-  Inv (fst (step c s cl)) /\ rate_le_states c s (fst (step c s cl)).
+Lemma step_inv_rate c s cl : wf_cfg c -> Inv c s -> wf_call cl = true ->
+  Inv c (fst (step c s cl)) /\ rate_le_states c s (fst (step c s cl)).
 Proof.
   intros Hc Hi Hwf. unfold step. destruct (step_res c s cl) as [[s' o]|] eqn:E; cbn [fst].
   - apply (step_res_inv_rate c s cl s' o); auto.
@@ -176,8 +181,8 @@ Proof.
 Qed.
 
 (* ---------- every history ---------- *)
-Lemma run_inv_rate c : wf_cfg c -> forall cs s, Inv s -> forallb wf_call cs = true ->
-  Inv (run c s cs) /\ rate_le_states c s (run c s cs).
+Lemma run_inv_rate c : wf_cfg c -> forall cs s, Inv c s -> forallb wf_call cs = true ->
+  Inv c (run c s cs) /\ rate_le_states c s (run c s cs).
 Proof.
   intros Hc. induction cs as [|cl cs IH]; intros s Hi Hwf; cbn [run fold_left].
   - split; [exact Hi|apply rate_refl].
@@ -193,11 +198,11 @@ Qed.
 Lemma run_app c s l1 l2 : run c s (l1 ++ l2) = run c (run c s l1) l2.
 Proof. unfold run. apply fold_left_app. Qed.
 
-Theorem reachable_inv c n0 cs : wf_cfg c -> forallb wf_call cs = true -> Inv (run c (init n0) cs).
+Theorem reachable_inv c n0 cs : wf_cfg c -> forallb wf_call cs = true -> Inv c (run c (init c n0) cs).
 Proof. intros Hc Hw. apply run_inv_rate; auto. apply Inv_init. Qed.
 
 Theorem rate_monotone c n0 cs1 cs2 : wf_cfg c -> forallb wf_call cs1 = true -> forallb wf_call cs2 = true ->
-  rate_le_states c (run c (init n0) cs1) (run c (init n0) (cs1 ++ cs2)).
+  rate_le_states c (run c (init c n0) cs1) (run c (init c n0) (cs1 ++ cs2)).
 Proof.
   intros Hc H1 H2. rewrite run_app. apply run_inv_rate; auto. apply reachable_inv; auto.
 Qed.
